@@ -1187,7 +1187,7 @@ class _CellBase:
     def close_enough(self, value, rel=0.00001, tol=None):
         if isinstance(self.value, Number) and isinstance(value, Number):
             if tol is not None:
-                return abs(value - self.value) < (1 + rel) * tol
+                return abs(value - self.value) <= (1 + rel) * tol
             elif value and self.value:
                 return math.isclose(self.value, value, rel_tol=rel)
             else:
